@@ -848,7 +848,7 @@ func lightMedium(c *Ctx, prop string, undo bool, collect ...string) {
 	ok := parallelFor(c, len(jobs), func(i int) {
 		n, _ := fam.Root()
 		for _, op := range jobs[i].hist {
-			r := fam.Step(n, op)
+			r := safeStep(c, fam, n, op)
 			atomic.AddInt64(&steps, 1)
 			atomic.AddInt64(&evals, r.Evals)
 			c.Col.Add(r.Viol...)
@@ -900,4 +900,12 @@ func nextPow2(n int) int {
 		p *= 2
 	}
 	return p
+}
+
+func (f *LightFamily) CaseOf(hist []Op) (Case, string) {
+	id := histStr(hist)
+	if f.Base > 0 {
+		id = fmt.Sprintf("base=%d %s", f.Base, id)
+	}
+	return mkCase("light", lightPayload{Fam: *f, Hist: hist}), id
 }
